@@ -45,6 +45,8 @@ pub mod c01;
 pub mod c02;
 pub mod c03;
 pub mod c05;
+pub mod c07;
+pub mod c10;
 pub mod work;
 
 pub const SCHEMA: &str = r#"
@@ -86,6 +88,8 @@ pub struct NodeOpts {
     pub schema: Option<String>,
     pub perf: Option<Box<dyn FnOnce(&mut klukai_types::config::PerfConfig) + Send>>,
     pub cluster_id: Option<u16>,
+    /// run the real `handle_changes` loop on the node's changes channel
+    pub run_handle_changes: bool,
 }
 
 impl Default for NodeOpts {
@@ -95,6 +99,7 @@ impl Default for NodeOpts {
             schema: Some(SCHEMA.to_string()),
             perf: None,
             cluster_id: None,
+            run_handle_changes: false,
         }
     }
 }
@@ -146,6 +151,18 @@ pub async fn new_node_in(idx: usize, dir: tempfile::TempDir, opts: NodeOpts) -> 
     if opts.serve_sync {
         spawn_gossipserver_handler(&agent, &bookie, &tripwire, gossip_server_endpoint);
     }
+
+    let rx_changes = if opts.run_handle_changes {
+        tokio::spawn(klukai_agent::agent::verif_exports::handle_changes(
+            agent.clone(),
+            bookie.clone(),
+            rx_changes,
+            tripwire.clone(),
+        ));
+        bounded(1, "verif_dummy_changes").1
+    } else {
+        rx_changes
+    };
 
     let (clear_tx, clear_rx) = bounded(1024, "verif_clear");
     tokio::spawn(clear_buffered_meta_loop(agent.clone(), clear_rx));
@@ -288,13 +305,6 @@ impl Node {
                 Ok(None) => return Err("apply channel closed".into()),
                 Err(_) => return Err("apply trigger announced by hook never arrived on rx_apply (60s)".into()),
             }
-        }
-        // anything else (should not happen: the hook counts every trigger)
-        while let Ok((actor, version)) = self.rx_apply.try_recv() {
-            let r = process_fully_buffered_changes(&self.agent, &self.bookie, actor, version, Duration::from_secs(60))
-                .await
-                .map_err(|e| e.to_string())?;
-            out.push((actor, version.0, r));
         }
         Ok(out)
     }
